@@ -38,8 +38,21 @@ def lanes(prop, quick_cfgs, thorough_cfgs, engine="e_lanes", extra=None):
 
 PLAN = {
     "C01": lanes("C01", ["sse2", "scalar", "fma"], ["coresimd", "libm", "dbg"]),
+    "C13": lanes("C13", ["sse2", "dbg"], ["scalar"]),
+    "C14": lanes("C14", ["sse2", "scalar"], ["coresimd"]),
+    "C15": lanes("C15", ["sse2", "scalar", "coresimd"], []),
+    "C16": lanes("C16", ["sse2", "scalar", "coresimd"], []),
+    "C17": lanes("C17", ["sse2", "scalar", "coresimd"], []),
 }
+for _p in ("C13",):
+    for _r in PLAN[_p]["runs"]:
+        _r["shards"] = {"quick": 8, "thorough": 16}
 
 RULES = {
+    "C13": "Every event is one call of a public operator/method of an integer vector type. 8-bit types: all 65536 operand pairs of every binary operation (swept pair in a rotating lane among benign lanes, and all lanes hostile); 16-bit: all values for unary ops, all 2^32 pairs for the core families in thorough; wider types: boundary lattice pairs and random. The expected lane is the Rust primitive; checked_* must be None iff some lane's primitive is None; the call must panic iff some lane's primitive panics in this profile (release: div by zero, MIN/-1; dbg: also overflow). Non-trivial = operand lanes not all equal; distinct = distinct (type, op, per-lane class tuple, panic expectation).",
+    "C14": "Every event is one conversion call (as_* cast, From, TryFrom, mask conversion, tuple/extend/truncate/Vec3A/Quat structural conversion; 733 generated entries). Sources: all values of 8/16-bit scalars, integer/float boundary sets (2^k +- d, type MIN/MAX +- ulps, +-0.5) and random bits for wider ones, a stride sweep (quick) / all 2^32 patterns (thorough) for f32 sources, each value rotating through every lane and alone among benign lanes. Expected lane = `as` / From / TryFrom of the primitive; structural conversions bit-for-bit. Non-trivial = lanes not all equal.",
+    "C15": "Masks: all 2^N values of each of the 5 mask types, built through every construction route (new, from_array, From, set from default / all-true, !!, comparisons of vectors incl. every hidden-lane state for BVec3A), all observers (bitmask, any, all, test/set at every index incl. invalid ones which must panic, !, ==, Hash, Debug, Display, [bool;N], [u32;N]) against a [bool;N] model; all ordered pairs for & | ^ and assign forms; SIMD masks vs bool-field masks. cmp* on all 34 numeric vector types: every ordered pair of the special-value pool in every lane plus random; select for all masks on tagged operands bit-for-bit. Non-trivial = mask neither empty nor full / operands differ.",
+    "C16": "All 28+117+336 getter names and all 6+36 with_ setter names (generated from the letters) on each of the 34 implementing types, on pairwise-distinct tagged lanes (NaN payloads, -0), equal lanes and random bits, and for Vec3A with seven hidden-lane contents: result lane i must be bit-for-bit the source lane named by letter i, result type as documented; with_ replaces exactly the named lanes; writing back what was read is the identity. Non-trivial = pairwise distinct tagged lanes.",
+    "C17": "Random histories (length <= 32) per type (34 vector types, Quat, DQuat): construct through one of 8 constructors, then interleave writes through field assignment / IndexMut / AsMut / with_* and after every step compare every read path (fields, Index, to_array, write_to_slice, Into<array>, Into<tuple>, AsRef, Debug, Display, Display with precision) with a shadow lane model bit-for-bit; named constants against documented values. Every step is an event; distinct = distinct (type, write path, lane, history length).",
     "C01": "Every event is one call of a public operator/method of a float vector type on operands from (a) the special-value lattice with every value (pair) placed in every lane, (b) hostile random lanes (random bits, exact ties, values around 2^23/2^31, huge quotients), (c) a stride sweep (quick) or all 2^32 f32 patterns (thorough) for the rounding family; each output lane is compared with the Rust primitive applied to that lane (IEEE equality). An event is non-trivial when the operand lanes are not all equal and the expected result differs from the operand; distinct = distinct (type, operation, per-lane input-class tuple) among non-trivial events, summed over configurations.",
 }
